@@ -38,11 +38,12 @@ MAIN = "file:///zcv/main.conf"
 SCHEMA = '<schema><multikey name="k" attribute="uses"/><key name="o" default="d"/></schema>'
 
 NAMES = ["a", "A", "b", "c"]
-VALUES = ["v", "w", "", "$b", "$$b", "${B}x", "  p  q ", "$a"]
+VALUES = ["v", "w", "", "$b", "$$b", "${B}x", "  p  q ", "$a", "p q"]
 FULL = ([("d", n, v) for n in NAMES for v in VALUES] +
         [("d", "1x", "v"), ("d", "a-b", "v")] +
         [("u", r) for r in ("$a", "${A}x", "$b", "$c", "$$a")] + [("[",), ("]",)])
 CORE = [("d", "a", "v"), ("d", "a", "w"), ("d", "A", "v"), ("d", "a", "$b"), ("d", "a", "$$b"),
+        ("d", "a", "p q"), ("d", "A", "p  q"),
         ("d", "b", "v"), ("d", "b", "w"), ("d", "a", ""), ("u", "$a"), ("u", "$B"),
         ("[",), ("]",)]
 
